@@ -114,6 +114,10 @@ package p2p
 //@   property C20
 //@   let typ = msg.Header.Type
 //@   at mapread.mc assert table_read_locked: sel(rwHeld, d.mu) >= 1
+// The handler runs in a goroutine of its own, later than the loop that spawns it: the
+// subscriber it calls must be the one that matched, so nothing the goroutine captured by
+// reference may be assigned again (the range variable is, in every round).
+//@   deferred go [C20] handler_goroutine_keeps_its_subscriber
 //@   at Subscriber.HandleMessage assert only_matching_registered: recv.Match(msg) && in(d.mc[typ], recv) && $1 == msg && $2 == stream
 //@   ensures lock_released: sel(rwHeld, d.mu) == old(sel(rwHeld, d.mu)) || sel(rwHeld, d.mu) == 0
 //@   ensures exactly_once_to_matching: result == nil && msg != nil && msg.Header != nil && !d.IsHandled(msg) ==> (forall sub Subscriber :: sel(delivered, sub) == sel(old(delivered), sub) + (in(d.mc[typ], sub) && sub.Match(msg) ? 1 : 0))
